@@ -261,7 +261,7 @@ def coq_deps(target_v):
     return out.split()
 
 
-def coq_prove(prop, timeout=1500):
+def coq_prove(prop, timeout=900):
     """Build coq/<prop>/Properties_<prop>.vo (full .vo build) and collect per-theorem assumptions.
     Returns dict(obligations, discharged, failed=[names], axioms={thm: [..]}, log, files)."""
     rel = "%s/Properties_%s" % (prop, prop)
